@@ -53,6 +53,8 @@ cpp2coq.SCHEMA["tlru_cache"] = dict(
              "insert", "insert_range", "erase", "erase_range", "find", "find_range", "find_range_fill",
              "clean_expired_values", "empty", "size", "capacity"],
     inst=INST, clock=True, getpos="get_lru",
+    ctor=True, ctor_const={"tt_ttl": "0%Z"},      # tt_ttl: the uniform TTL of utlru_cache, no member of tlru_cache
+    elem_default="{| te_expire := 0%Z; te_keyed := None; te_lru := None; te_ttl := None; te_val := None |}",
     # every iteration of the only loop (clean_expired_values) runs do_erase, which decrements m_used_size, and the
     # loop stops when m_used_size is 0
     fuel="(S (tt_used %(s)s))",
